@@ -152,6 +152,14 @@ Proof.
   rewrite N.eqb_eq; split; congruence.
 Qed.
 
+Section WithChk.
+Variable chk : bool.
+Local Notation u_apply := (Model.u_apply chk).
+Local Notation u_apply_all := (Model.u_apply_all chk).
+Local Notation u_transfers := (Model.u_transfers chk).
+Local Notation c10_apply z us := (Model.u_apply_all chk us (u_start z)).
+Local Notation c10_transfers z uss := (Model.u_transfers chk uss z).
+
 Lemma u_apply_all_app a : forall b st,
   u_apply_all (a ++ b) st = (do st' <- u_apply_all a st; u_apply_all b st').
 Proof.
@@ -165,7 +173,7 @@ Lemma u_adds ks : forall v w,
 Proof.
   induction ks as [|k ks IH]; intros v w; cbn [adds map u_apply_all rev app].
   - reflexivity.
-  - unfold u_apply, with_root. cbn. fold (adds ks). rewrite IH.
+  - unfold Model.u_apply, with_root. cbn. fold (adds ks). rewrite IH.
     rewrite <- app_assoc. reflexivity.
 Qed.
 
@@ -177,7 +185,7 @@ Lemma u_dels ks : forall v w,
 Proof.
   induction ks as [|k ks IH]; intros v w; cbn [dels map u_apply_all del_all fold_left].
   - reflexivity.
-  - unfold u_apply, with_root. cbn. fold (dels ks). rewrite IH. reflexivity.
+  - unfold Model.u_apply, with_root. cbn. fold (dels ks). rewrite IH. reflexivity.
 Qed.
 
 Lemma filter_all_true {A} (f : A -> bool) l : (forall x, In x l -> f x = true) -> filter f l = l.
@@ -197,38 +205,76 @@ Lemma u_axfr s ks z0 :
   u_apply_all (axfr_upds s ks) (u_start z0) =
   Ok (mkU (Soa s :: rev (map Other ks)) (Soa s :: rev (map Other ks)) false false true).
 Proof.
-  unfold axfr_upds, u_start. cbn [u_apply_all]. unfold u_apply at 1. cbn.
-  rewrite u_apply_all_app, u_adds. cbn. unfold u_apply, with_root, u_commit, z_update_soa. cbn.
+  unfold axfr_upds, u_start. cbn [Model.u_apply_all]. unfold Model.u_apply at 1. cbn.
+  rewrite u_apply_all_app, u_adds. cbn. unfold Model.u_apply, with_root, u_commit, z_update_soa. cbn.
   rewrite app_nil_r, filter_nonsoa_others. reflexivity.
 Qed.
 
 Definition apply_diff_z (d : diff) (w : zone) : zone :=
   rev (map Other (d_adds d)) ++ z_update_soa (d_new d) (del_all (d_dels d) w).
 
+Fixpoint chain_ok (ds : list diff) (w : zone) : Prop :=
+  match ds with
+  | [] => True
+  | d :: ds' => batch_soa_ok chk (d_old d) w = true /\ chain_ok ds' (apply_diff_z d w)
+  end.
+
 Lemma u_diff d v w :
+  batch_soa_ok chk (d_old d) w = true ->
   u_apply_all (diff_upds d) (mkU v w true true false) = Ok (mkU w (apply_diff_z d w) true true false).
 Proof.
-  unfold diff_upds. cbn [u_apply_all]. unfold u_apply at 1, u_commit. cbn.
+  intros B. unfold diff_upds. cbn [Model.u_apply_all]. unfold Model.u_apply at 1, u_commit.
+  cbn [u_fin u_open u_working u_write u_visible]. rewrite B.
+  replace (if chk then Ok tt else Ok tt) with (@Ok unit tt) by (destruct chk; reflexivity).
+  cbn.
   rewrite u_apply_all_app, u_dels. cbn.
   rewrite u_adds. reflexivity.
 Qed.
 
-Lemma u_diffs ds : forall v w,
+Lemma u_diffs ds : forall v w, chain_ok ds w ->
   exists v', u_apply_all (concat (map diff_upds ds)) (mkU v w true true false) =
   Ok (mkU v' (fold_left (fun z d => apply_diff_z d z) ds w) true true false).
 Proof.
-  induction ds as [|d ds IH]; intros v w; cbn [map concat fold_left].
+  induction ds as [|d ds IH]; intros v w C; cbn [map concat fold_left].
   - exists v. reflexivity.
-  - rewrite u_apply_all_app, u_diff. cbn [bind]. apply IH.
+  - destruct C as [B C]. rewrite u_apply_all_app, (u_diff d v w B). cbn [bind]. apply IH. exact C.
 Qed.
 
-Lemma u_ixfr snew ds old :
+Lemma u_ixfr snew ds old : chain_ok ds old ->
   let w := z_update_soa snew (fold_left (fun z d => apply_diff_z d z) ds old) in
   u_apply_all (ixfr_upds snew ds) (u_start old) = Ok (mkU w w false false true).
 Proof.
-  cbv zeta. unfold ixfr_upds, u_start. rewrite u_apply_all_app.
-  destruct (u_diffs ds old old) as [v' ->]. cbn. unfold u_apply, with_root, u_commit. cbn.
+  intros C. cbv zeta. unfold ixfr_upds, u_start. rewrite u_apply_all_app.
+  destruct (u_diffs ds old old C) as [v' ->]. cbn. unfold Model.u_apply, with_root, u_commit. cbn.
   reflexivity.
+Qed.
+
+(* difference sequences that chain on SOA serials satisfy the updater's check,
+   whether or not it is there *)
+Fixpoint soa_chain (cur : N) (ds : list diff) : Prop :=
+  match ds with
+  | [] => True
+  | d :: ds' => soa_serial (d_old d) = soa_serial cur /\ soa_chain (d_new d) ds'
+  end.
+
+Lemma filter_soa_others ks : filter is_soa (rev (map Other ks)) = [].
+Proof.
+  induction ks as [|k ks IH]; cbn [map rev]; [reflexivity|].
+  rewrite filter_app, IH. reflexivity.
+Qed.
+
+Lemma first_soa_apply_diff d w : z_first_soa (apply_diff_z d w) = Some (d_new d).
+Proof.
+  unfold z_first_soa, apply_diff_z, z_update_soa. rewrite filter_app, filter_soa_others. reflexivity.
+Qed.
+
+Lemma soa_chain_ok ds : forall w cur,
+  z_first_soa w = Some cur -> soa_chain cur ds -> chain_ok ds w.
+Proof.
+  induction ds as [|d ds IH]; intros w cur Hw Hc; cbn [chain_ok]; [exact I|].
+  destruct Hc as [H1 H2]. split.
+  - unfold batch_soa_ok. rewrite Hw. destruct chk; [|reflexivity]. apply N.eqb_eq. congruence.
+  - apply (IH _ (d_new d)); [apply first_soa_apply_diff|exact H2].
 Qed.
 
 (* set-level reading of the list operations *)
@@ -311,16 +357,17 @@ Definition u_inv (st : ustate) : Prop := u_fin st = false -> u_open st = true /\
 
 Lemma u_apply_inv u st : u_inv st -> no_panic (u_apply u st) /\ (forall st', u_apply u st = Ok st' -> u_inv st').
 Proof.
-  unfold u_inv, u_apply. intros I. destruct (u_fin st) eqn:F.
+  unfold u_inv, Model.u_apply. intros I. destruct (u_fin st) eqn:F.
   { cbn. split; [exact Logic.I|discriminate]. }
   destruct (I eq_refl) as [O W].
   destruct u; unfold with_root, u_commit; rewrite ?O, ?W; cbn; rewrite ?O, ?W; cbn;
+  try (destruct chk; [destruct (batch_soa_ok _ _ _)|]; cbn; rewrite ?O, ?W; cbn);
   (split; [exact Logic.I|intros st' H; inversion H; subst; cbn; auto; discriminate]).
 Qed.
 
 Lemma u_apply_all_no_panic us : forall st, u_inv st -> no_panic (u_apply_all us st).
 Proof.
-  induction us as [|u us IH]; intros st I; cbn [u_apply_all].
+  induction us as [|u us IH]; intros st I; cbn [Model.u_apply_all].
   - exact Logic.I.
   - destruct (u_apply_inv u st I) as [NP K]. destruct (u_apply u st) eqn:E; cbn in *; auto.
 Qed.
@@ -332,7 +379,7 @@ Definition is_commit (u : upd) : bool :=
 Lemma u_apply_visible u st st' :
   u_apply u st = Ok st' -> is_commit u = false -> u_visible st' = u_visible st.
 Proof.
-  unfold u_apply. destruct (u_fin st); [discriminate|].
+  unfold Model.u_apply. destruct (u_fin st); [discriminate|].
   destruct u; cbn [is_commit]; try discriminate; unfold with_root;
   destruct (u_open st); intros H; inversion H; subst; reflexivity.
 Qed.
@@ -341,7 +388,7 @@ Lemma u_apply_all_visible us : forall st st',
   u_apply_all us st = Ok st' -> forallb (fun u => negb (is_commit u)) us = true ->
   u_visible st' = u_visible st.
 Proof.
-  induction us as [|u us IH]; intros st st'; cbn [u_apply_all forallb].
+  induction us as [|u us IH]; intros st st'; cbn [Model.u_apply_all forallb].
   - intros H _. inversion H. reflexivity.
   - destruct (u_apply u st) as [st1| | |] eqn:E; cbn [bind]; try discriminate.
     intros H Hc. apply andb_prop in Hc as [C1 C2].
@@ -378,7 +425,7 @@ Proof.
   - apply (run_of_flat Axfr ms cs _ p' Hp).
     + intros [E _]. discriminate.
     + exists s, (map Other ks ++ [Soa s]). rewrite Hc. auto.
-  - unfold c10_apply. rewrite u_axfr. split; [reflexivity|]. cbn. split; [reflexivity|].
+  - idtac. rewrite u_axfr. split; [reflexivity|]. cbn. split; [reflexivity|].
     split; [reflexivity|]. constructor. apply Permutation_sym, Permutation_rev.
 Qed.
 
@@ -401,22 +448,23 @@ Proof.
   exists (axfr_upds s (k :: ks)). eexists. split.
   - apply (run_of_flat Ixfr ms cs _ p' Hp Hl).
     exists s, (map Other (k :: ks) ++ [Soa s]). rewrite Hc. auto.
-  - unfold c10_apply. rewrite u_axfr. split; [reflexivity|]. cbn [u_fin u_visible]. split; [reflexivity|].
+  - idtac. rewrite u_axfr. split; [reflexivity|]. cbn [u_fin u_visible]. split; [reflexivity|].
     constructor. apply Permutation_sym, Permutation_rev.
 Qed.
 
 Theorem ixfr_fidelity snew ds old new ms cs :
   (forall d, In d ds -> d_old d <> snew) ->
   chain_rel old ds new -> (forall s, In (Soa s) new <-> s = snew) ->
+  chain_ok ds old ->
   packs 251 ms cs -> concat cs = ixfr_seq snew ds -> ~ lone_soa_first Ixfr cs ->
   exists us st, run None ms = (us, SDone) /\ c10_apply old us = Ok st /\
     u_fin st = true /\ zeq (u_visible st) new.
 Proof.
-  intros Hne Hch Hsoa Hp Hc Hl. destruct (flat_ixfr snew ds Hne) as [p' [F [Hf _]]].
+  intros Hne Hch Hsoa Hck Hp Hc Hl. destruct (flat_ixfr snew ds Hne) as [p' [F [Hf _]]].
   exists (ixfr_upds snew ds). eexists. split.
   - apply (run_of_flat Ixfr ms cs _ p' Hp Hl).
     exists snew, (concat (map diff_seq ds) ++ [Soa snew]). rewrite Hc. auto.
-  - unfold c10_apply. rewrite u_ixfr. split; [reflexivity|]. cbn [u_fin u_visible]. split; [reflexivity|].
+  - idtac. rewrite (u_ixfr _ _ _ Hck). split; [reflexivity|]. cbn [u_fin u_visible]. split; [reflexivity|].
     pose proof (chain_fold ds old old new Hch (fun r => iff_refl _)) as Z.
     intros r. rewrite in_update_soa, (Z r). destruct r as [s|k]; cbn [is_soa].
     + rewrite Hsoa. split; [intros [E|[_ E]]; [congruence|discriminate]|intros ->; left; reflexivity].
@@ -517,7 +565,7 @@ Lemma u_partial ks z0 :
 Proof.
   destruct ks as [|k ks]; cbn [partial_upds].
   - exists z0. reflexivity.
-  - unfold u_start. cbn [u_apply_all]. unfold u_apply at 1. cbn. rewrite u_adds. eexists. reflexivity.
+  - unfold u_start. cbn [Model.u_apply_all]. unfold Model.u_apply at 1. cbn. rewrite u_adds. eexists. reflexivity.
 Qed.
 
 Lemma run_incomplete ty ms cs us p' :
@@ -544,7 +592,7 @@ Proof.
   destruct (u_partial ks z0) as [w A].
   exists (partial_upds ks). eexists. split.
   - apply (run_incomplete ty ms cs _ p' Hp Hl). exists s, (map Other ks). rewrite Hc. auto.
-  - unfold c10_apply. rewrite A. auto.
+  - idtac. rewrite A. auto.
 Qed.
 
 Theorem reject_mismatched_close ty s s' ks ms cs z0 :
@@ -558,7 +606,7 @@ Proof.
   destruct (u_partial ks z0) as [w A].
   set (us := partial_upds ks ++ (match ks with [] => [UDeleteAll] | _ => [] end) ++ [UAdd (Soa s')]) in *.
   assert (H : exists st, c10_apply z0 us = Ok st /\ u_fin st = false /\ u_visible st = z0).
-  { unfold c10_apply, us. rewrite u_apply_all_app, A. cbn [bind].
+  { unfold us. rewrite u_apply_all_app, A. cbn [bind].
     destruct ks; cbn; eexists; (split; [reflexivity|auto]). }
   destruct H as [st [A1 A2]]. exists us, st. split; [|auto].
   apply (run_incomplete ty ms cs _ p' Hp Hl). exists s, (map Other ks ++ [Soa s']). rewrite Hc.
@@ -600,18 +648,18 @@ Theorem abort_then_axfr us1 z0 st1 s ks :
   c10_transfers z0 [us1; axfr_upds s ks] =
   Ok [u_visible st1; Soa s :: rev (map Other ks)].
 Proof.
-  intros H. unfold c10_transfers. cbn [u_transfers]. rewrite H. cbn [bind].
+  intros H. idtac. cbn [Model.u_transfers]. rewrite H. cbn [bind].
   rewrite u_axfr. reflexivity.
 Qed.
 
 Theorem abort_then_ixfr us1 z0 st1 snew ds :
-  u_apply_all us1 (u_start z0) = Ok st1 ->
+  u_apply_all us1 (u_start z0) = Ok st1 -> chain_ok ds (u_visible st1) ->
   c10_transfers z0 [us1; ixfr_upds snew ds] =
   Ok [u_visible st1;
       z_update_soa snew (fold_left (fun z d => apply_diff_z d z) ds (u_visible st1))].
 Proof.
-  intros H. unfold c10_transfers. cbn [u_transfers]. rewrite H. cbn [bind].
-  rewrite u_ixfr. reflexivity.
+  intros H C. cbn [Model.u_transfers]. rewrite H. cbn [bind].
+  rewrite (u_ixfr _ _ _ C). reflexivity.
 Qed.
 
 (* an aborted transfer that never reached a batch boundary is invisible *)
@@ -620,7 +668,7 @@ Theorem abort_invisible us1 z0 st1 :
   forallb (fun u => negb (is_commit u)) us1 = true ->
   c10_transfers z0 [us1] = Ok [z0].
 Proof.
-  intros H C. unfold c10_transfers. cbn [u_transfers]. rewrite H. cbn [bind].
+  intros H C. idtac. cbn [Model.u_transfers]. rewrite H. cbn [bind].
   rewrite (u_apply_all_visible _ _ _ H C). reflexivity.
 Qed.
 
@@ -629,4 +677,6 @@ Example abort_nonvacuous :
     [[UBeginDel 3; UDelete (Other 5); UBeginAdd 4; UAdd (Other 6); UBeginDel 4; UDelete (Other 9)];
      ixfr_upds 6 [mkDiff 4 [6] 6 [7]]]
   = Ok [[Other 6; Soa 4; Other 9]; [Soa 6; Other 7; Other 9]].
-Proof. vm_compute. reflexivity. Qed.
+Proof. destruct chk; vm_compute; reflexivity. Qed.
+
+End WithChk.
